@@ -754,12 +754,20 @@ fn body(c: &mut C, thorough: bool) -> Result<(), Violation> {
                 if next > c.now + 1 && c.tape.draw(3) == 0 {
                     let t = if c.tape.draw(4) == 0 { next - 1 } else { c.now + 1 + c.tape.draw((next - c.now - 1) as u64) as i64 };
                     let before = c.stats.get("frames.tx");
+                    let ev_before = c.stats.get("dhcp.deconfigured-events") + c.stats.get("dhcp.configured-events");
+                    let unresolved = c.arp_pending;
                     let save = c.now;
                     c.now = t;
                     poll(c)?;
                     c.stats.inc("c13.early-probes");
                     if c.stats.get("frames.tx") > before {
                         return Err(viol("C13", "sufficiency", "C13.early-tx/dhcp-client", format!("poll_at at t={} us returned {:?}; an extra poll at t={} us with nothing delivered in between transmitted a frame", save, d, t)));
+                    }
+                    // nor may a protocol timer fire in it silently: an event for the application (the lease ran
+                    // out) before the instant poll_at named means sleeping until that instant delays it
+                    if c.stats.get("dhcp.deconfigured-events") + c.stats.get("dhcp.configured-events") > ev_before {
+                        let sig = if unresolved { "C13.early-event/dhcp-client/while-server-neighbor-unresolved" } else { "C13.early-event/dhcp-client" };
+                        return Err(viol("C13", "sufficiency", sig, format!("poll_at at t={} us returned {:?}; an extra poll at t={} us with nothing delivered in between produced a DHCP event (a timer of the client was due before the instant poll_at named)", save, d, t)));
                     }
                     continue;
                 }
